@@ -131,11 +131,32 @@ func main() {
 			die(2, "INTERNAL-ERROR cannot build instrumenter")
 		}
 	}
-	// loops of the parser dependency are counted too (work bound / hang detection of C09)
+	// loops of the parser dependency are counted too (work bound / hang detection of C09): files under
+	// the module cache cannot be overlaid, so the module is copied to the scratch directory and the
+	// build uses a generated go.mod that replaces it with the copy
+	hdir := filepath.Join(verif, "harness")
+	if b, err := os.ReadFile("/repo/go.sum"); err == nil {
+		os.WriteFile(filepath.Join(hdir, "go.sum"), b, 0o644)
+	}
 	tickDirs := ""
-	if d, err := run(filepath.Join(verif, "harness"), goEnv(), "go1.26.8", "list", "-m", "-f", "{{.Dir}}", "github.com/zishang520/engine.io-go-parser"); err == nil {
+	modfile := ""
+	if d, err := run(hdir, goEnv(), "go1.26.8", "list", "-m", "-f", "{{.Dir}}", "github.com/zishang520/engine.io-go-parser"); err == nil {
 		if d = strings.TrimSpace(d); d != "" && !strings.Contains(d, "\n") {
-			tickDirs = filepath.Join(d, "parser") + "," + filepath.Join(d, "utils")
+			pm := filepath.Join(scratch, "parsermod")
+			if out, err := run(verif, goEnv(), "cp", "-r", d, pm); err != nil {
+				fmt.Print(out)
+			} else {
+				run(verif, goEnv(), "chmod", "-R", "u+w", pm)
+				tickDirs = filepath.Join(pm, "parser") + "," + filepath.Join(pm, "utils")
+				gm, _ := os.ReadFile(filepath.Join(hdir, "go.mod"))
+				g := strings.Replace(string(gm), "replace verifrt => ../rt", "replace verifrt => "+filepath.Join(verif, "rt"), 1)
+				g += "\nreplace github.com/zishang520/engine.io-go-parser => " + pm + "\n"
+				modfile = filepath.Join(scratch, "go.mod")
+				os.WriteFile(modfile, []byte(g), 0o644)
+				if b, err := os.ReadFile(filepath.Join(hdir, "go.sum")); err == nil {
+					os.WriteFile(filepath.Join(scratch, "go.sum"), b, 0o644)
+				}
+			}
 		}
 	}
 	if out, err := run(verif, goEnv(), instr, "-repo", "/repo", "-out", scratch, "-tick", tickDirs); err != nil {
@@ -144,15 +165,20 @@ func main() {
 		cleanupAndExit(2)
 	}
 	// 2. build the harness against it
-	hdir := filepath.Join(verif, "harness")
-	if b, err := os.ReadFile("/repo/go.sum"); err == nil {
-		os.WriteFile(filepath.Join(hdir, "go.sum"), b, 0o644)
-	}
 	bin := filepath.Join(scratch, "harness.test")
-	if out, err := run(hdir, goEnv(), "go1.26.8", "test", "-c", "-tags", "verif", "-overlay", filepath.Join(scratch, "overlay.json"), "-vet=off", "-o", bin, "."); err != nil {
+	bargs := []string{"test", "-c", "-tags", "verif", "-overlay", filepath.Join(scratch, "overlay.json"), "-vet=off", "-o", bin}
+	if modfile != "" {
+		bargs = append(bargs, "-modfile", modfile)
+	}
+	bargs = append(bargs, ".")
+	if out, err := run(hdir, goEnv(), "go1.26.8", bargs...); err != nil {
 		fmt.Print(out)
 		fmt.Printf("INTERNAL-ERROR harness does not build against the current /repo tree\n")
 		cleanupAndExit(2)
+	}
+	if prop == "--warm" {
+		fmt.Println("build ok")
+		cleanupAndExit(0)
 	}
 	buildS := time.Since(start).Seconds()
 
